@@ -19,6 +19,8 @@ pub enum Initial {
     /// a one-key keyring whose comment contains a Latin-1 byte (not UTF-8): kestrel cannot *load* it,
     /// but generating into it must still only append
     Latin1Comment,
+    /// the -o path holds something that is not a keyring at all
+    NotAKeyring,
     /// the -o path is a symbolic link to the real keyring file (a dotfiles layout)
     Symlink,
     /// an existing keyring larger than any I/O buffer: one key followed by a comment block of this many bytes
@@ -64,7 +66,7 @@ fn gen_cli_password(rng: &mut Rng) -> String {
 fn gen_cli_name(rng: &mut Rng, k: usize) -> (String, bool) {
     match rng.below(16) {
         0 => (String::new(), true),
-        1 => ("n".repeat(129), true),
+        1 => (if rng.chance(1, 2) { "n".repeat(129) } else { "\u{e9}".repeat(100) }, true),
         2 => (format!("tab\tname{}", k), true),
         3 => (format!("{}{}", "m".repeat(120), format!("{:08}", k)), false), // exactly 128 bytes
         4 => (format!("k=v {}", k), false),
@@ -83,10 +85,14 @@ impl Family for B3 {
         "b3"
     }
     fn properties(&self) -> &'static [&'static str] {
-        &["C14", "C17", "C07"]
+        &["C14", "C17", "C07", "C13"]
     }
     fn budget(&self, tier: Tier, p: &str) -> u64 {
-        let q = if p == "C14" { 90 } else { 20 };
+        let q = match p {
+            "C14" => 90,
+            "C13" => 40,
+            _ => 20,
+        };
         q * match tier {
             Tier::Quick => 1,
             Tier::Thorough => 15,
@@ -100,7 +106,9 @@ impl Family for B3 {
             3 => Initial::OneKey { trailing_newline: false, comments: false, crlf: false },
             4 => Initial::OneKey { trailing_newline: true, comments: true, crlf: false },
             _ => {
-                if rng.chance(1, 5) {
+                if rng.chance(1, 6) {
+                    Initial::NotAKeyring
+                } else if rng.chance(1, 5) {
                     Initial::Symlink
                 } else if rng.chance(1, 5) {
                     Initial::Latin1Comment
@@ -131,11 +139,12 @@ impl Family for B3 {
     }
     fn execute(&self, s: &Scn) -> RunOut {
         let mut out = RunOut::default();
-        out.props = vec!["C14", "C17", "C07"];
+        out.props = vec!["C14", "C17", "C07", "C13"];
         let sb = Sandbox::new("b3");
         let mut r = Rng::new(s.seed);
         let mut th = 0u64;
-        let f = "keys.txt";
+        // the keyring's file name varies: no extension, a temporary-looking one, a space, a dot file
+        let f: &str = ["keys.txt", "keyring", "keyring.tmp", "my keys.txt", ".keyring", "keys.txt.bak"][(s.seed % 6) as usize];
         let init_sk = r.arr32();
         let init_name = "initial-key-000";
         let init_pw = "initial pw";
@@ -159,6 +168,10 @@ impl Family for B3 {
                 }
                 sb.write(f, t.as_bytes());
                 known.push((init_name.into(), init_pw.into()));
+            }
+            Initial::NotAKeyring => {
+                sb.write(f, b"shopping list\n- milk\n- eggs\n");
+                latin1 = true; // prefix preservation only
             }
             Initial::Symlink => {
                 let t = keyring_text(&[KeySpec { name: init_name.into(), sk: init_sk, password: Some(init_pw.into()), salt: r.arr32() }]);
@@ -222,6 +235,10 @@ impl Family for B3 {
             }
             let after = sb.read(f);
             let step = format!("step {} (name {:?})", k, g.name);
+            // C13: a generation that reports failure has not touched the file
+            if fin.status != Status::Exit(0) && before != after && !String::from_utf8_lossy(&fin.shim_log).contains("inject errno=") {
+                out.violations.push(viol("C13", "failed_generation_changed_the_file", format!("{}: `key generate` exited {:?} but the keyring went from {:?} to {:?} bytes", step, fin.status, before.as_ref().map(|b| b.len()), after.as_ref().map(|b| b.len()))));
+            }
             if g.invalid {
                 if fin.status != Status::Exit(1) || !fin.has_error_line() {
                     out.violations.push(viol("C14", "invalid_name_not_refused", format!("{}: expected exit 1 with an error, got {:?}", step, fin.status)));
@@ -322,7 +339,7 @@ impl Family for B3 {
         out.count("probe.refused_names", s.gens.iter().filter(|g| g.invalid).count() as u64);
         out.trace_hash = th;
         out.steps = s.gens.len() as u64;
-        out.signature = format!("b3|{:?}|{}|{}", s.initial, s.gens.iter().map(|g| if g.invalid { 'x' } else { crate::fam::a9::name_class(&g.name).chars().next().unwrap() }).collect::<String>(), s.use_keys);
+        out.signature = format!("b3|{:?}|{}|{}", s.initial, s.gens.iter().map(|g| if g.invalid { 'x' } else { crate::gen::name_class(&g.name).chars().next().unwrap() }).collect::<String>(), s.use_keys);
         out.nontrivial = s.gens.len() >= 2 || s.initial != Initial::Absent;
         out
     }
